@@ -1806,6 +1806,11 @@ Htrunc(int32 aid, int32 trunc_len)
     if (access_rec == (accrec_t *)NULL || !(access_rec->access & DFACC_WRITE))
         HGOTO_ERROR(DFE_ARGS, FAIL);
 
+    /* the descriptor of a special element describes its header, not its data:
+       truncating it would damage the element, so refuse */
+    if (access_rec->special)
+        HGOTO_ERROR(DFE_CANTMOD, FAIL);
+
         /* Dunno about truncating special elements... -QAK */
 #ifdef DONT_KNOW
     /* if special elt, call special function */
